@@ -486,7 +486,9 @@ pub fn run(opts: &Opts) -> Report {
     let all: Vec<(&str, &str, char)> = POSITIONS.iter().chain(EXTRA.iter()).cloned().collect();
     // A. every position alone, two names (one of them collides with the loop variable the templates use)
     for (pos, t, k) in all.iter() {
-        for name in ["pv", "q9_Z"] {
+        // two plain names, and two that are also the name of a built-in function / macro: in a variable position
+        // they are read from the bindings like any other name, so they must be reported too
+        for name in ["pv", "q9_Z", "min", "filter"] {
             let src = instantiate(t, name);
             check_program(&mut rep, &mut pending, &mut rng, &src, &[Planted { name: name.into(), kind: *k, position: pos.to_string() }], "single");
         }
